@@ -116,14 +116,14 @@ class C12(Prop):
         c.append(self.dsq_case("dsq-single-empty-seq", "amino", [[]], 3, 4, 1, 2, 1))
         return c
 
-    def rand_dsq(self, rng, amino, maxlen):
+    def rand_dsq(self, rng, amino, maxlen, full=False):
         n = rng.choice([0, 1, 2, 5, 6, 7, 11, 12, 13, 14, 15, 16, 17, 29, 30, 31, 44, 45, 46, 60, rng.randrange(0, maxlen + 1), rng.randrange(0, maxlen + 1)])
         n = min(n, maxlen)
         if amino:
-            codes = list(range(0, 20)) + [21, 22, 23, 24, 25, 26]
+            codes = list(range(0, 29)) if full else list(range(0, 20)) + [21, 22, 23, 24, 25, 26]
             return [rng.choice(codes) for _ in range(n)]
         mode = rng.random()
-        deg = [5, 6, 7, 8, 9, 10, 11, 12, 13, 14, 15]
+        deg = [4, 5, 6, 7, 8, 9, 10, 11, 12, 13, 14, 15, 16, 17] if full else [5, 6, 7, 8, 9, 10, 11, 12, 13, 14, 15]
         if mode < 0.3:
             return [rng.randrange(4) for _ in range(n)]
         if mode < 0.6:      # rare degenerates, forcing mixed 2-bit / 5-bit packets
@@ -136,7 +136,7 @@ class C12(Prop):
             return out[:n]
         return [rng.choice(deg + [0, 1, 2, 3]) for _ in range(n)]
 
-    def dsq_case(self, name, abc, seqs, maxseq, maxpacket, unpackers, consumers, seed, pert=40, rng=None):
+    def dsq_case(self, name, abc, seqs, maxseq, maxpacket, unpackers, consumers, seed, pert=40, rng=None, raw=False):
         import random
         r = rng or random.Random(seed)
         names, descs = [], []
@@ -147,6 +147,10 @@ class C12(Prop):
         lst = lambda xs: ",".join("x" + "".join("%02x" % b for b in x) for x in xs) if xs else "-"      # element = "x" + hex (may be empty)
         op = "dsqrt abc=%s maxseq=%d maxpacket=%d unpackers=%d consumers=%d seed=%d pert=%d names=%s descs=%s dsq=%s" % (
             abc, maxseq, maxpacket, unpackers, consumers, seed, pert, lst(names), lst(descs), lst(seqs))
+        if raw:      # database written by the harness itself: accessions and taxonomy ids, every residue code of the alphabet
+            accs = [("" if r.random() < 0.3 else "".join(r.choice("ABCXYZ0123456789._") for _ in range(r.randrange(1, 12)))).encode() for _ in seqs]
+            tax = [r.choice([-1, 1, 9606, 2**31 - 1, r.randrange(1, 1 << 31)]) for _ in seqs]
+            op += " writer=raw accs=%s taxids=%s" % (lst(accs), ",".join(map(str, tax)) if tax else "-")
         return {"name": name, "ops": [op]}
 
     def cases(self, ctx):
@@ -155,11 +159,12 @@ class C12(Prop):
         out = []
         stats = ctx.stats.setdefault("inputs", {"codec_ops": 0, "wq_seq_ops": 0, "wqrun": 0, "dsqrt": 0, "dsqrt_seqs": 0, "malformed": 0})
         # --- codec
-        for c in range(60 if quick else 1200):
+        for c in range(200 if quick else 3000):
             ops = []
             for _ in range(rng.randrange(3, 10)):
                 amino = rng.random() < 0.4
-                d = self.rand_dsq(rng, amino, 120 if quick else 2000)
+                d = self.rand_dsq(rng, amino, 120 if quick else 2000, full=True)
+                if rng.random() < 0.15: d = [min(x + rng.choice([0, 0, 2]), 30) for x in d] + [30, 29]     # codes up to 30 are legal for the codec
                 r = rng.random()
                 if r < 0.08:       # out-of-range residue codes (31 = in-packet end marker, >31 spill into neighbouring fields)
                     d = [rng.choice([31, 32, 63, 64, 127, 128, 255, rng.randrange(256)]) if rng.random() < 0.2 else x for x in d]
@@ -177,7 +182,11 @@ class C12(Prop):
                     ops.append(("unpack5" if amino else "unpack2") + " p=" + ",".join(map(str, p)))
                     if last: break                                # the process dies on a fault: nothing may follow in this case
                 else:
-                    ds = [self.rand_dsq(rng, amino, 60) for _ in range(rng.randrange(0, 7))]
+                    if rng.random() < 0.3:     # every packet full: the tightest case for the in-place unpacking
+                        per = 6 if amino else 15
+                        ds = [[rng.randrange(20 if amino else 4) for _ in range(per * rng.randrange(1, 4))] for _ in range(rng.randrange(1, 7))]
+                    else:
+                        ds = [self.rand_dsq(rng, amino, 60, full=True) for _ in range(rng.randrange(0, 7))]
                     p = [w for x in ds for w in (pack5(x) if amino else pack2(x))]
                     last = False
                     if rng.random() < 0.04 and p:
@@ -187,7 +196,7 @@ class C12(Prop):
             stats["codec_ops"] += len(ops)
             out.append({"name": "codec%d" % c, "ops": ops})
         # --- sequential queue histories (python keeps a rough picture only to make most ops meaningful)
-        for c in range(50 if quick else 800):
+        for c in range(150 if quick else 2000):
             size = rng.choice([1, 2, 3, 4, 5, 8])
             ops = ["wq create size=%d" % size]
             nb = 0
@@ -216,7 +225,7 @@ class C12(Prop):
             stats["wq_seq_ops"] += len(ops)
             out.append({"name": "wqseq%d" % c, "ops": ops, "sticky": 1})
         # --- threaded queue runs
-        for c in range(40 if quick else 600):
+        for c in range(120 if quick else 1500):
             size = rng.choice([1, 2, 3, 4, 6, 8])
             W = rng.randrange(1, 7)
             B = rng.choice([1, size, rng.randrange(1, size + 1)])
@@ -225,20 +234,34 @@ class C12(Prop):
                 size, W, B, M, rng.randrange(1, 1 << 30), rng.choice([0, 10, 30, 60, 90]))]})
             stats["wqrun"] += 1
         # --- start rendezvous
-        for c in range(25 if quick else 300):
+        for c in range(60 if quick else 600):
             out.append({"name": "thrun%d" % c, "ops": ["thrun workers=%d rounds=%d seed=%d pert=%d" % (
                 rng.choice([1, 2, 3, 4, 6, 8, rng.randrange(1, 17)]), rng.randrange(1, 4), rng.randrange(1, 1 << 30), rng.choice([0, 20, 50, 90]))]})
             stats["thrun"] = stats.get("thrun", 0) + 1
         # --- databases
-        for c in range(40 if quick else 500):
+        for c in range(120 if quick else 1500):
             amino = rng.random() < 0.45
+            raw = rng.random() < 0.5
             maxpacket = rng.choice([2, 3, 4, 5, 8, 16, 50, 300])
             nseq = rng.choice([1, 1, 2, 3, 7, 20, rng.randrange(1, 60 if quick else 600)])   # an empty FASTA file is not a sequence file
+            if raw and rng.random() < 0.05: nseq = 0
             maxlen = 6 * maxpacket - 1             # the writer's guarantee L < 6 * maxpacket
-            seqs = [self.rand_dsq(rng, amino, min(maxlen, 300 if quick else 3000)) for _ in range(nseq)]
             maxseq = rng.choice([1, 2, 3, 5, 16, 4096])
+            if rng.random() < 0.25:
+                # tight chunks: every packet full (15 two-bit or 6 five-bit residues) and chunks that hit maxseq and maxpacket
+                # at the same time - the worst case for unpacking in place inside the shared smem buffer
+                maxseq = rng.choice([1, 2, 3, 5])
+                q = [rng.randrange(1, 4) for _ in range(maxseq)]
+                maxpacket = max(2, sum(q))
+                per = 6 if amino else 15
+                seqs = []
+                for _ in range(rng.randrange(1, 6)):
+                    seqs += [[rng.randrange(20 if amino else 4) for _ in range(per * x)] for x in q]
+                nseq = len(seqs)
+            else:
+                seqs = [self.rand_dsq(rng, amino, min(maxlen, 300 if quick else 3000), full=raw) for _ in range(nseq)]
             out.append(self.dsq_case("dsqrt%d" % c, "amino" if amino else "dna", seqs, maxseq, maxpacket, rng.randrange(1, 5), rng.randrange(1, 5),
-                                     rng.randrange(1, 1 << 30), rng.choice([0, 20, 50, 80]), rng))
+                                     rng.randrange(1, 1 << 30), rng.choice([0, 20, 50, 80]), rng, raw=raw))
             stats["dsqrt"] += 1; stats["dsqrt_seqs"] += nseq
         rng.shuffle(out)
         return out
